@@ -491,11 +491,18 @@ def _datedif(model, res, opaque, E):
                         continue
                     before = None
                     day_lt = None
+                    feb29 = False
                     for (t, alt, s) in o.notes:
                         if isinstance(s, Atom) and s.op == 'lt' and [getattr(a, 'name', None) for a in s.args] == ['S', 'E']:
                             before = bool(alt)
                         if isinstance(s, Atom) and s.op == 'eq' and sorted(getattr(a, 'name', '') for a in s.args) == ['E', 'S'] and alt:
                             before = False
+                        if isinstance(s, tuple) and s and s[0] == 'feb29' and alt:
+                            # an anniversary on 29 February that does not exist in the end year: start day 29, end day <= 28
+                            feb29 = True
+                        if isinstance(s, AffCmp) and set(s.coeffs) == set(['ed', 'sd']) and s.op in ('eq', 'ne') and s.const == 0:
+                            if (s.op == 'eq') == bool(alt):
+                                day_lt = False
                         if isinstance(s, AffCmp) and set(s.coeffs) == set(['ed', 'sd']):
                             # ed - sd < 0 ?
                             ce, cs = s.coeffs['ed'], s.coeffs['sd']
@@ -507,6 +514,50 @@ def _datedif(model, res, opaque, E):
                                 day_lt = bool(alt)
                     if not before:
                         continue
+                    # feasibility of the day decisions over the calendar domain (days are 1..31; on the 29-February trace the start
+                    # day is 29 and, when the end month is February too, the end day is at most 28)
+                    box = {'sd': [1, 31], 'ed': [1, 31]}
+                    if feb29:
+                        box['sd'] = [29, 29]
+                        if em == 2:
+                            box['ed'][1] = 28
+                    feasible = True
+                    for (t, alt, s) in o.notes:
+                        if not isinstance(s, AffCmp) or not set(s.coeffs) <= set(['sd', 'ed']) or not s.coeffs:
+                            continue
+                        coeffs, const = dict(s.coeffs), s.const
+                        if feb29 and 'sd' in coeffs:
+                            const = const + coeffs.pop('sd') * 29
+                        if len(coeffs) != 1:
+                            continue
+                        (var, a), = coeffs.items()
+                        op = s.op if alt else {'lt': 'ge', 'le': 'gt', 'gt': 'le', 'ge': 'lt', 'eq': 'ne', 'ne': 'eq'}[s.op]
+                        if a < 0:
+                            op = {'lt': 'gt', 'le': 'ge', 'gt': 'lt', 'ge': 'le', 'eq': 'eq', 'ne': 'ne'}[op]
+                        c = Fraction(-const) / Fraction(a)      # var <op> c
+                        import math as _m
+                        lo, hi = box[var]
+                        if op == 'lt':
+                            hi = min(hi, _m.ceil(c) - 1)
+                        elif op == 'le':
+                            hi = min(hi, _m.floor(c))
+                        elif op == 'gt':
+                            lo = max(lo, _m.floor(c) + 1)
+                        elif op == 'ge':
+                            lo = max(lo, _m.ceil(c))
+                        elif op == 'eq':
+                            if c.denominator != 1:
+                                feasible = False
+                            lo, hi = max(lo, int(c)), min(hi, int(c))
+                        box[var] = [lo, hi]
+                        if lo > hi:
+                            feasible = False
+                    if not feasible:
+                        continue
+                    if box['ed'][1] < box['sd'][0]:
+                        day_lt = True
+                    elif box['ed'][0] >= box['sd'][1]:
+                        day_lt = False
                     v = o.value
                     if v.tag == 'err':
                         continue
